@@ -1,7 +1,8 @@
 ------------------------------ MODULE World ------------------------------
 (***************************************************************************)
 (* Several graph handles: the calls that create a graph from another one   *)
-(* (clone, save+load, slice) next to the five mutators, any interleaving.  *)
+(* (clone, save+load, slice) and the call that grafts one graph onto       *)
+(* another (merge) next to the five mutators, any interleaving.            *)
 (* History variable `issued` (ids handed out by each graph's allocator,    *)
 (* inherited by clone) states C05; the action properties below state the   *)
 (* world-level clauses of C01, C05, C08, C10 and C13 on the model.         *)
@@ -53,20 +54,37 @@ WSlice(h, d, v, lt) ==
               /\ issued' = [issued EXCEPT ![d] = {}]
               /\ ev' = [op |-> "slice", h |-> h, dst |-> d, v |-> v, lt |-> lt]
 
+\* merge(gs[d] into gs[h]): whatever the shape of gs[d] (tree, DAG, loop, forest) as long as every step stays inside
+\* the limits (MergeOp.lim; join() is then never reached); the additions stay even when the call returns Err
+WMerge(h, d, left, right) ==
+              /\ Live(h) /\ Live(d) /\ h # d
+              /\ left \in gs[h].present /\ right \in gs[d].present
+              /\ LET r == MergeOp(gs[h], gs[d], left, right) IN
+                 /\ r.lim
+                 /\ gs' = [gs EXCEPT ![h] = r.g]
+                 /\ issued' = [issued EXCEPT ![h] = @ \cup {r.log[i].ret : i \in {j \in 1..Len(r.log) : r.log[j].op = "next_id"}}]
+                 /\ ev' = [op |-> "merge", h |-> h, src |-> d, left |-> left, right |-> right, ok |-> r.ok, m |-> r.m, missed |-> r.missed]
+
 WNext == \/ \E h \in Hs, v \in Ids : WAdd(h, v) \/ WData(h, v)
          \/ \E h \in Hs, v \in Ids, d \in Vals : WPut(h, v, d)
          \/ \E h \in Hs, v1, v2 \in Ids, a \in Labels : WBind(h, v1, v2, a)
          \/ \E h \in Hs : WNextId(h)
          \/ \E h, d \in Hs : WClone(h, d) \/ WReload(h, d)
          \/ \E h, d \in Hs, v \in Ids, lt \in BOOLEAN : WSlice(h, d, v, lt)
+         \/ \E h, d \in Hs, l, r \in Ids : WMerge(h, d, l, r)
 WSpec == WInit /\ [][WNext]_wvars
 
 (* ------------------------------ properties ---------------------------------- *)
 WTypeOK == \A h \in Hs : Live(h) => WellFormed(gs[h])
 
 \* C05: never a present id, never an id this graph (or the graph it was cloned from) issued before
-FreshIds == [][ev'.op = "next_id" =>
-                 /\ ev'.ret \in Ids /\ ev'.ret \notin gs[ev'.h].present /\ ev'.ret \notin issued[ev'.h]]_wvars
+FreshStep == (ev'.op = "next_id") =>
+                (/\ ev'.ret \in Ids /\ ev'.ret \notin gs[ev'.h].present /\ ev'.ret \notin issued[ev'.h])
+\* ... and merge() takes its new vertices from the same allocator: none of them was present or issued before
+FreshMerge == (ev'.op = "merge") =>
+                (LET new == gs'[ev'.h].present \ gs[ev'.h].present IN
+                 new \cap issued[ev'.h] = {} /\ new \subseteq issued'[ev'.h])
+FreshIds == [][FreshStep /\ FreshMerge]_wvars
 \* the allocator position is above everything issued (why the freshness holds)
 IssuedBelowPos == \A h \in Hs : Live(h) => \A i \in issued[h] : i < gs[h].nextv
 
@@ -91,4 +109,40 @@ SliceExact == [][ev'.op = "slice" =>
                                   /\ \A j \in 1..Len(src.edges[v]) : src.edges[v][j][2] \in K =>
                                         \E i \in 1..Len(res.edges[v]) : res.edges[v][i] = src.edges[v][j]
                   /\ gs'[ev'.h] = src]_wvars
+
+\* C11 / C12 on the model.  merge() only adds: every vertex, edge and group link of the left graph survives; data is
+\* overwritten only on vertices in the image of the mapping, by the datum of the vertex mapped there; the right graph
+\* is untouched (Independent).  When the call reports Ok, the mapping is total on the right graph's present vertices,
+\* sends `right` to `left`, and carries every edge and every datum: a homomorphic image of the right graph lies in the
+\* result.  It reports Err exactly when some present vertex of the right graph was not reached, and names exactly those.
+MergeOnlyAdds == [][ev'.op = "merge" =>
+                  LET g == gs[ev'.h]  g2 == gs'[ev'.h]  hh == gs[ev'.src]  m == ev'.m
+                      img == {m[u] : u \in DOMAIN m} IN
+                  /\ g.present \subseteq g2.present
+                  /\ \A v \in g.present : \A i \in 1..Len(g.edges[v]) : i <= Len(g2.edges[v]) /\ g2.edges[v][i] = g.edges[v][i]
+                  /\ \A G \in g.groups : \E G2 \in g2.groups : G \subseteq G2
+                  /\ \A v \in g.present : (g2.val[v] # g.val[v] \/ g2.st[v] # g.st[v]) =>
+                        \E u \in DOMAIN m : m[u] = v /\ hh.st[u] # "empty" /\ g2.val[v] = hh.val[u] /\ g2.st[v] = "stored"
+                  /\ \A v \in g2.present \ g.present : v \in img
+                  /\ gs'[ev'.src] = hh]_wvars
+MergeCarriesAll == [][ev'.op = "merge" =>
+                  LET g2 == gs'[ev'.h]  hh == gs[ev'.src]  m == ev'.m IN
+                  /\ ev'.ok <=> (ev'.missed = {})
+                  /\ ev'.missed = hh.present \ DOMAIN m
+                  /\ DOMAIN m \subseteq hh.present /\ m[ev'.right] = ev'.left
+                  /\ \A u \in DOMAIN m :
+                        /\ m[u] \in g2.present
+                        /\ \A i \in 1..Len(hh.edges[u]) : LET a == hh.edges[u][i][1]  t == hh.edges[u][i][2] IN
+                              /\ t \in DOMAIN m /\ KidOf(g2, m[u], a) # None
+                              \* the left graph's own edge under that label wins; otherwise the edge leads to the image of t
+                              /\ (KidOf(gs[ev'.h], m[u], a) = None => KidOf(g2, m[u], a) = m[t])
+                        \* a datum of the right graph arrives (the LAST right vertex mapped to a left vertex wins)
+                        /\ hh.st[u] # "empty" => (g2.st[m[u]] = "stored" /\ \E u2 \in DOMAIN m : m[u2] = m[u] /\ g2.val[m[u]] = hh.val[u2])]_wvars
+\* when the right graph is a tree below `right` and the left graph has nothing in the way (no edge of `left`... under a
+\* label the right root uses), the mapping is injective: the right tree arrives as an isomorphic copy
+MergeTreeInjective == [][(ev'.op = "merge" /\ IsTreeFrom(gs[ev'.src], ev'.right)) =>
+                  /\ ev'.ok
+                  /\ \A u1, u2 \in DOMAIN ev'.m : u1 # u2 => ev'.m[u1] # ev'.m[u2]]_wvars
+\* probe, must be VIOLATED (a forest on the right is reported as Err): shows the merge clauses are not vacuous
+ProbeMergeAlwaysOk == [][ev'.op = "merge" => ev'.ok]_wvars
 =============================================================================
